@@ -9,7 +9,7 @@ for d in sorted(glob.glob("/verif/seeded/C*")):
     title = ""
     n = d + "/notes.md"
     if os.path.exists(n):
-        title = re.sub(r"^#\s*(C\d\d\s*/\s*)?m\d\s*-\s*", "", open(n).readline().strip())
+        title = re.sub(r"^#\s*(C\d\d\s*/\s*)?m\d+\s*-\s*", "", open(n).readline().strip())
     else:
         title = (m.get("needs_to_manifest") or "")[:140].split("\n")[0]
     how = "-"
